@@ -5,6 +5,7 @@ CONSTANTS
   RootId = 1
   PhenoId = 2
   MaxEdges = 12
+  WithExtras = FALSE
   WithPairs = FALSE
   MaxFacts = 8
 INVARIANTS
